@@ -181,7 +181,7 @@ def main(which):
     # (configuration, depth of the replayed graph, number of deepest-level source states sampled [None = all])
     if which == "C19":
         graphs = [("MC_Module.cfg", 2, None), ("MC_Chans.cfg", 3, 40 if quick else 600),
-                  ("MC_Inputs.cfg", 3, None)]
+                  ("MC_Inputs.cfg", 3, None), ("MC_Recs.cfg", 3, None)]
     else:
         graphs = [("MC_Params.cfg", 3, 30 if quick else 800)]
     states = trans = 0
@@ -263,7 +263,10 @@ def main(which):
             enabled = {norm_label(l) for l, _ in adj[nid]}
             out = [[l, norm[b]] for l, b in adj[nid]]
             # states at the depth bound have every editing call disabled by the bound, not by a guard
-            refused = [l for l in alpha if norm_label(l) not in enabled] if len(path[nid]) < replay_depth else []
+            # (the node's OWN depth counts: under the VIEW that hides `depth`, TLC's workers may have kept a copy of this
+            # state that was reached by a longer history and sits at the bound although a shorter history reaches it too)
+            at_bound = max(len(path[nid]), int(nodes[nid].get("depth", 0))) >= replay_depth
+            refused = [l for l in alpha if norm_label(l) not in enabled] if not at_bound else []
             if len(path[nid]) >= 1 and (quick or len(path[nid]) >= 2):
                 refused = rnd.sample(refused, min(len(refused), 4))
             sts.append({"path": path[nid], "state": norm[nid], "out": out, "refused": refused})
